@@ -301,6 +301,9 @@ FAMILIES = [
         [_none, _append("policy", lambda i: "acct")], slot="cross_account", rtypes=("sqs",)),
     Fam("used", lambda i: {"type": "used"},
         [_none, _append("all_images", lambda i: "ami-1")], slot="used", rtypes=("ami",)),
+    # the same clause in its one-word spelling (``filters: [used]``), anywhere in a tree
+    Fam("used_word", lambda i: "used",
+        [_none, _append("all_images", lambda i: "ami-1")], slot="used", rtypes=("ami",)),
     Fam("is_logging", lambda i: {"type": "is-logging"},
         [_append("access_log", lambda i: {"Enabled": False}), _append("access_log", lambda i: {"Enabled": True})],
         slot="is_logging", rtypes=("elb",)),
@@ -350,6 +353,8 @@ def translate(entry, rtype, filt):
     buf = io.StringIO()
     try:
         with contextlib.redirect_stdout(buf):   # network_location_rewrite prints its clauses
+            if entry == "primitive":
+                return "ok", C7N_Rewriter.primitive(rtype, filt)
             if entry == "logical_connector":
                 return "ok", C7N_Rewriter.logical_connector(rtype, filt)
             import yaml
@@ -430,7 +435,9 @@ def as_bool(o):
 
 
 def leaf_text(fam, i, rtype):
-    return translate("logical_connector", rtype, FAM[fam].clause(i))
+    clause = FAM[fam].clause(i)
+    # what a clause means alone: a one-word clause is handed to the clause translator itself
+    return translate("primitive" if isinstance(clause, str) else "logical_connector", rtype, clause)
 
 
 def top_op(text):
